@@ -12,7 +12,13 @@ def gen_vectors(ctx, fam, npa=1, nra=1, deviations="{}", simulate=None, depth=No
     r = ctx.gen("mc/MC_HTTPTransport", cfg,
                 consts={"Family": '"%s"' % fam, "NPA": npa, "NRA": nra, "Deviations": deviations},
                 simulate=simulate, depth=depth, label=label or ("Gen %s %dx%d" % (fam, npa, nra)), timeout=1500)
-    return r.vectors
+    out, seen = [], set()
+    for v in r.vectors:     # several terminal states per case where the mechanism has a choice
+        k = core.canon([v["pa"], v["ra"], v.get("tagged", False), v["pv"], v["rv"]])
+        if k not in seen:
+            seen.add(k)
+            out.append(v)
+    return out
 
 
 def combine_cases(ctx, vectors1, n, seed, fam="req", mode="random"):
@@ -297,14 +303,26 @@ def obs_sig(v, o):
 
 
 class Explainer:
-    """Tells whether the mechanism of HTTPTransport.tla with one (or two) named deviations enabled behaves
-    exactly as the real code was observed to: one TLC run (Explain_HTTPTransport) over the mismatching
-    cases x candidate deviation sets."""
+    """Tells whether the mechanism of HTTPTransport.tla with named deviations enabled behaves exactly as the
+    real code was observed to: one TLC run (Explain_HTTPTransport) over the mismatching cases x candidate
+    deviation sets (none, one, two; three only for the cases nothing smaller explains).  A behaviour the
+    mechanism shows with no deviation at all (it has choices, e.g. for the zero value of a defaulted
+    attribute) needs no explanation and is never attributed to a deviation."""
 
     def __init__(self, ctx, fam, npa, nra):
         self.ctx, self.fam, self.npa, self.nra = ctx, fam, npa, nra
         self.table = None
-        self.devsets = [[d] for d in DEVIATIONS] + [[d1, d2] for i, d1 in enumerate(DEVIATIONS) for d2 in DEVIATIONS[i + 1:]]
+        self.devsets = [[]] + [[d] for d in DEVIATIONS] + [[d1, d2] for i, d1 in enumerate(DEVIATIONS) for d2 in DEVIATIONS[i + 1:]]
+        self.triples = [[d1, d2, d3] for i, d1 in enumerate(DEVIATIONS) for k, d2 in enumerate(DEVIATIONS[i + 1:], i + 1) for d3 in DEVIATIONS[k + 1:]]
+        self.deep = set()
+
+    def _run(self, vs, devsets):
+        cases = "".join(json.dumps({"pa": v["pa"], "ra": v["ra"], "tagged": v.get("tagged", False), "pv": v["pv"], "rv": v["rv"]}) + "\n" for v in vs)
+        ds = "".join(json.dumps({"devs": d}) + "\n" for d in devsets)
+        r = self.ctx.gen("mc/Explain_HTTPTransport", "mc/Explain_HTTPTransport.cfg", consts={"NPA": self.npa, "NRA": self.nra},
+                         files={"cases.ndjson": cases, "devsets.ndjson": ds}, label="Explain %s (%d cases x %d deviation sets)" % (self.fam, len(vs), len(devsets)), timeout=1500)
+        for v in r.vectors:
+            self.table.setdefault((case_key(v), "+".join(sorted(v["devs"]))), []).append(mech_sig(v))
 
     def prepare(self, vectors):
         """vectors: the cases that need an explanation."""
@@ -318,15 +336,11 @@ class Explainer:
         if not uniq:
             return
         self.done |= set(uniq)
-        cases = "".join(json.dumps({"pa": v["pa"], "ra": v["ra"], "tagged": v.get("tagged", False), "pv": v["pv"], "rv": v["rv"]}) + "\n" for v in uniq.values())
-        devsets = "".join(json.dumps({"devs": d}) + "\n" for d in self.devsets)
-        r = self.ctx.gen("mc/Explain_HTTPTransport", "mc/Explain_HTTPTransport.cfg", consts={"NPA": self.npa, "NRA": self.nra},
-                         files={"cases.ndjson": cases, "devsets.ndjson": devsets}, label="Explain %s (%d cases x %d deviation sets)" % (self.fam, len(uniq), len(self.devsets)), timeout=1500)
-        for v in r.vectors:
-            self.table.setdefault((case_key(v), "+".join(sorted(v["devs"]))), []).append(mech_sig(v))
+        self._run(list(uniq.values()), self.devsets)
 
     def explain(self, v, o, focus=None):
-        """Name of the deviation (or 'a+b') under which the model does what the code did, else None."""
+        """Name of the deviation ('a', 'a+b', 'a+b+c') under which the model does what the code did; None when
+        there is none - or when the mechanism does it with no deviation at all."""
         if self.table is None or case_key(v) not in self.done:
             self.prepare([v])
         want = obs_sig(v, o)
@@ -335,10 +349,26 @@ class Explainer:
         def match(sig):
             keys = focus or want.keys()
             return all(sig.get(k) == want.get(k) for k in keys)
-        for ds in self.devsets:
-            if any(match(s) for s in self.table.get((ck, "+".join(sorted(ds))), [])):
-                return "+".join(ds)
-        return None
+
+        def find(devsets):
+            for ds in devsets:
+                if any(match(s) for s in self.table.get((ck, "+".join(sorted(ds))), [])):
+                    return "+".join(ds) if ds else ""
+            return None
+        hit = find(self.devsets)
+        if hit is None:
+            if ck not in self.deep:
+                self.deep.add(ck)
+                self._run([v], self.triples)
+            hit = find(self.triples)
+        return hit or None
+
+    def baseline(self, v, o):
+        """the mechanism with no deviation behaves as observed (one of its choices)"""
+        if self.table is None or case_key(v) not in self.done:
+            self.prepare([v])
+        want = obs_sig(v, o)
+        return any(s == want for s in self.table.get((case_key(v), ""), []))
 
 
 # ------------------------------------------------------------------ trace validation (J) of the executed scenarios
